@@ -25,6 +25,7 @@ type Solver struct {
 	Bin     string
 	cmd     *exec.Cmd
 	in      io.WriteCloser
+	w       *bufio.Writer
 	out     *bufio.Reader
 	Queries int
 	Time    time.Duration
@@ -55,7 +56,7 @@ func Start(bin string, timeoutMs int) (*Solver, error) {
 	if err := cmd.Start(); err != nil {
 		return nil, err
 	}
-	s := &Solver{Bin: bin, cmd: cmd, in: in, out: bufio.NewReaderSize(out, 1<<16)}
+	s := &Solver{Bin: bin, cmd: cmd, in: in, w: bufio.NewWriterSize(in, 1<<16), out: bufio.NewReaderSize(out, 1<<16)}
 	if strings.Contains(bin, "cvc5") {
 		s.Send("(set-logic ALL)\n")
 	}
@@ -67,6 +68,7 @@ func (s *Solver) Close() {
 	if s == nil || s.cmd == nil {
 		return
 	}
+	s.w.Flush()
 	s.in.Close()
 	done := make(chan struct{})
 	go func() { s.cmd.Wait(); close(done) }()
@@ -85,14 +87,17 @@ func (s *Solver) Send(text string) {
 	if s.Trace != nil {
 		io.WriteString(s.Trace, text)
 	}
-	io.WriteString(s.in, text)
+	s.w.WriteString(text)
 }
+
+func (s *Solver) flush() { s.w.Flush() }
 
 // Check runs (check-sat) and returns the verdict.  Any "(error" line seen
 // before the verdict turns the answer into Unknown.
 func (s *Solver) Check() Result {
 	t0 := time.Now()
 	s.Send("(check-sat)\n")
+	s.flush()
 	s.Queries++
 	res := Unknown
 	sawErr := false
@@ -145,6 +150,7 @@ func (s *Solver) GetValues(refs []string) (map[string]uint64, error) {
 			j = len(refs)
 		}
 		s.Send("(get-value (" + strings.Join(refs[i:j], " ") + "))\n")
+		s.flush()
 		txt, err := s.readSexp()
 		if err != nil {
 			return nil, err
